@@ -345,3 +345,13 @@ def value_slots_tested_by_identity(ctx):
     """shared with C06.R7"""
     from sa.rules import common
     common.truthiness_on_value_slots(ctx, {'frappy.protocol.dispatcher', 'frappy.modulebase', 'frappy.params'})
+
+
+@rule('C04.R9', min_instances=3)
+def nan_payload_is_refused(ctx):
+    """shared with C01.R9 / C01.R10: json.loads accepts the token NaN, so a change / do payload can carry one; the range test
+    of validate() must be in the accepting form (a NaN fails every comparison) and the conversion must hand the NaN
+    through - otherwise the driver is called with nan"""
+    from sa.rules import c01
+    c01.range_test_is_nan_safe(ctx)
+    c01.nan_is_never_turned_into_a_number(ctx)
